@@ -37,7 +37,7 @@ func (world) Level() string    { return "exploration" }
 
 func (world) Describe() super.Description {
 	return super.Description{
-		Rule:        "A case = one base text (a tape-generated valid module or submodule rendered with lexical variety: unquoted/single/double-quoted/'+'-concatenated arguments, comments between tokens, CRLF, tabs; or an ill-formed module; or a structurally damaged module — one or two whole statements dropped, duplicated, moved into another block or swapped, a keyword replaced, an argument removed/added/garbled, the text staying lexically well-formed; or a raw byte/token string) and one fault operator applied to it: none; truncation at EVERY byte offset (exhaustive for that text, up to 1500 bytes, else a drawn window); 1..3 byte flips/inserts/deletes; token drop/duplicate/swap; trailing garbage after the final '}'; an early statement that fails its check; or a sequence of 2..4 parses sharing one pair of interners. All parses of a case run inside one synctest bubble; in a third of the cases up to six of the same inputs are parsed again in SCHEDULE MODE: lexer goroutine and parser become workers of the tape-driven baton scheduler, their channel is simulated (simrewrite R4 on package parse: go statement, send, receive, close, range over channel) and 288 yield points are instrumented, so every interleaving decision is a tape draw; the outcome must equal the free-running one and nothing may stay blocked. distinct_nontrivial = distinct non-empty input texts actually parsed (hash of the bytes).",
+		Rule:        "A case = one base text (a tape-generated valid module or submodule rendered with lexical variety: unquoted/single/double-quoted/'+'-concatenated arguments, comments between tokens, CRLF, tabs; or an ill-formed module; or a structurally damaged module — one or two whole statements dropped, duplicated, moved into another block or swapped, a keyword replaced, an argument removed/added/garbled, the text staying lexically well-formed; or a raw byte/token string) and one fault operator applied to it: none; truncation at EVERY byte offset (exhaustive for that text, up to 1500 bytes, else a drawn window); 1..3 byte flips/inserts/deletes; token drop/duplicate/swap; trailing garbage after the final '}'; an early statement that fails its check; a sequence of 2..4 parses sharing one pair of interners; or an ARGUMENT SWEEP (for every keyword of the module whose argument has a grammar of its own — value, position, min/max-elements, fraction-digits, range, length, dates, booleans, key, unique, path — one statement of it takes each of 28, for numbers 55, garbled arguments in turn). All parses of a case run inside one synctest bubble; in a third of the cases up to six of the same inputs are parsed again in SCHEDULE MODE: lexer goroutine and parser become workers of the tape-driven baton scheduler, their channel is simulated (simrewrite R4 on package parse: go statement, send, receive, close, range over channel) and 288 yield points are instrumented, so every interleaving decision is a tape draw; the outcome must equal the free-running one and nothing may stay blocked. distinct_nontrivial = distinct non-empty input texts actually parsed (hash of the bytes).",
 		DistinctSet: "texts",
 		Assumptions: []string{
 			"testing/synctest (go1.26.8): Wait() returns only when every other goroutine of the bubble is durably blocked or gone; a goroutine count that stays above the pre-call count after Wait() is a goroutine that will never finish",
@@ -49,7 +49,7 @@ func (world) Describe() super.Description {
 			"real": []string{"parse (lex.go goroutine+channel, parse.go, ast/arg/cardinality checks, symbol tables)"},
 			"stub": []string{"none (the text is the only other party); NodeCardinality callback for extensions is nil or a two-entry table"},
 		},
-		FaultKinds: []string{"schedule-switch", "structure:stmt-drop", "structure:stmt-dup", "structure:stmt-move", "structure:stmt-swap", "structure:keyword", "structure:arg-toggle", "structure:arg-garble", "truncate", "byte-flip", "byte-insert", "byte-delete", "token-drop", "token-dup", "token-swap", "trailing-garbage", "early-check-failure", "shared-interner-sequence"},
+		FaultKinds: []string{"schedule-switch", "structure:stmt-drop", "structure:stmt-dup", "structure:stmt-move", "structure:stmt-swap", "structure:keyword", "structure:arg-toggle", "structure:arg-garble", "truncate", "byte-flip", "byte-insert", "byte-delete", "token-drop", "token-dup", "token-swap", "trailing-garbage", "early-check-failure", "shared-interner-sequence", "argument-garble-sweep"},
 	}
 }
 
@@ -239,12 +239,17 @@ func init() {
 // runInputs parses the inputs sequentially inside one bubble.
 type brief struct{ errNil, root, panicked bool }
 
+// culprit is the index of the input runInputs was working on when it stopped.
+var culprit int
+
 func (w world) runInputs(ins []input, shared bool, withCard bool, st *super.Stats, outs *[]brief) (v *super.Violation) {
 	var si *parse.StringInterner
 	var ai *parse.ArgInterner
 	idx := -1
+	culprit = -1
 	func() {
 		defer func() {
+			culprit = idx
 			if r := recover(); r != nil {
 				msg := fmt.Sprint(r)
 				in := input{}
@@ -382,6 +387,7 @@ func (w world) RunCase(t *tape.Tape, st *super.Stats) *super.Violation {
 	}
 	// base text
 	var base string
+	var baseRoot *genyang.Stmt // the statement tree behind base, when there is one
 	kind := t.Pick(6, 2, 1, 4)
 	if t.Rare(40) {
 		kind = 4
@@ -433,6 +439,7 @@ func (w world) RunCase(t *tape.Tape, st *super.Stats) *super.Violation {
 		if root.Kw == "module" && (root.Find("namespace") == nil || root.Find("prefix") == nil) {
 			inc("reach:module_without_namespace_or_prefix")
 		}
+		baseRoot = root
 		if t.Draw(4) == 3 {
 			base = root.Text()
 		} else {
@@ -464,9 +471,12 @@ func (w world) RunCase(t *tape.Tape, st *super.Stats) *super.Violation {
 	}
 	var ins []input
 	shared := false
-	op := t.Pick(3, 4, 3, 2, 1, 1, 1)
+	op := t.Pick(3, 4, 3, 2, 1, 1, 1, 2)
 	if kind == 4 {
 		op = 0
+	}
+	if op == 7 && baseRoot == nil {
+		op = 2
 	}
 	switch op {
 	case 0: // no fault
@@ -474,9 +484,18 @@ func (w world) RunCase(t *tape.Tape, st *super.Stats) *super.Violation {
 		inc("op:none")
 	case 1: // truncation at every byte (window if long)
 		lo, hi := 0, len(base)
-		if hi > 1500 {
-			lo = t.Draw(hi - 1500)
-			hi = lo + 1500
+		// window: 1500 offsets, fewer for very long texts (the sweep re-parses the text
+		// once per offset: keep a case below ~8 MB of parsed text)
+		win := 1500
+		if len(base) > 0 && 8<<20/len(base) < win {
+			win = 8 << 20 / len(base)
+			if win < 20 {
+				win = 20
+			}
+		}
+		if hi > win {
+			lo = t.Draw(hi - win)
+			hi = lo + win
 		}
 		for i := lo; i <= hi && i <= len(base); i++ {
 			ins = append(ins, input{name, base[:i]})
@@ -550,6 +569,21 @@ func (w world) RunCase(t *tape.Tape, st *super.Stats) *super.Violation {
 		}
 		ins = []input{{name, s}}
 		inc("fault:early-check-failure")
+	case 7: // argument sweep: every statement kind with an argument grammar of its own x every garbled argument
+		texts, kws := baseRoot.ArgSweep(t, 8<<20)
+		for _, s := range texts {
+			ins = append(ins, input{name, s})
+		}
+		if len(ins) == 0 {
+			ins = []input{{name, base}}
+		}
+		if st != nil {
+			st.Add("fault:argument-garble-sweep", int64(len(texts)))
+			st.Inc("argument_sweeps")
+			for _, k := range kws {
+				st.Inc("argument_sweep_keyword:" + k)
+			}
+		}
 	case 6: // sequence sharing interners, an early member damaged
 		shared = true
 		n := 2 + t.Draw(3)
@@ -566,8 +600,38 @@ func (w world) RunCase(t *tape.Tape, st *super.Stats) *super.Violation {
 	}
 	var outs []brief
 	v := w.runInputs(ins, shared, withCard, st, &outs)
+	// A hang or a leak seen by the free-running mode may depend on which goroutine the Go
+	// scheduler happened to run first; then it does not replay. When the tree can be run in
+	// schedule mode, the observation goes on the tape (Mark) and the same input is searched
+	// under drawn interleavings: a witness found there is a pure function of the tape.
+	// (big/deep texts are for the free-running mode only: their cost per byte under the scheduler is not bounded by a constant)
+	if schedAvailable && !shared && kind != 4 {
+		seen := 0
+		if v != nil && (v.Class == "hang" || v.Class == "leak") && culprit >= 0 && culprit < len(ins) && len(ins[culprit].text) <= 8192 {
+			seen = 1 + culprit
+		}
+		if seen = t.Mark(seen, len(ins)+1); seen > 0 {
+			in := ins[seen-1]
+			currentInput = in.text
+			inc("pinning_attempts")
+			for k := 0; k < 48; k++ {
+				o, sv, _, _ := runScheduled(in, withCard, t)
+				if sv == nil {
+					sv = judge(in, o)
+				}
+				if sv != nil {
+					sv.Detail = "(found free-running, pinned to a drawn schedule) " + sv.Detail
+					inc("pinned_to_schedule")
+					return sv
+				}
+			}
+			if v == nil {
+				return nil // (replay of a marked tape whose free-running phase saw nothing this time and whose schedules are clean)
+			}
+		}
+	}
 	// schedule mode: a sample of the same inputs under tape-drawn interleavings
-	if v == nil && schedAvailable && !shared && t.Draw(3) == 2 {
+	if v == nil && schedAvailable && !shared && kind != 4 && t.Draw(3) == 2 {
 		n := 1 + t.Draw(6)
 		for k := 0; k < n && v == nil; k++ {
 			i := t.Draw(len(ins))
@@ -605,7 +669,7 @@ func (w world) RunCase(t *tape.Tape, st *super.Stats) *super.Violation {
 	}
 	if st != nil && v == nil {
 		if len(ins) > 0 && len(ins) < 4 {
-			st.Sample(map[string]any{"operator": []string{"none", "truncate-everywhere", "byte-damage", "token-op", "trailing-garbage", "early-check-failure", "shared-interner-sequence"}[op], "inputs": len(ins), "text": clip(ins[0].text, 400)})
+			st.Sample(map[string]any{"operator": []string{"none", "truncate-everywhere", "byte-damage", "token-op", "trailing-garbage", "early-check-failure", "shared-interner-sequence", "argument-sweep"}[op], "inputs": len(ins), "text": clip(ins[0].text, 400)})
 		}
 		super.Event("%016x %d", super.Hash(base), len(ins))
 	}
